@@ -36,6 +36,9 @@ var vals = []string{
 
 type kv struct{ k, v string }
 
+// modes of the cost / costf cases: orerr = ReplaceOrErr(false, true), orkeep = ReplaceOrErr(false, false)
+var costModes = []string{"all", "known", "orerr", "orkeep"}
+
 func envField(env []kv) string {
 	if len(env) == 0 {
 		return "."
@@ -79,12 +82,22 @@ func (prop) Generate(rng *core.Rand, tier string, emit func(string)) {
 	}
 	emit("cost all 200000 4")
 	// families on which every mode must stay linear (the unclosed-placeholder guard): '{'^n + tail
-	for _, mode := range []string{"all", "known", "orerr"} {
+	for _, mode := range costModes {
 		emit("costf " + mode + " 20000 4 " + core.Hex("{") + " " + core.Hex("\\}x"))
 		emit("costf " + mode + " 20000 4 " + core.Hex("{") + " " + core.Hex("a"))
 		emit("costf " + mode + " 20000 4 " + core.Hex("{a\\}") + " " + core.Hex("x"))
 	}
 	emit("cost orerr 200000 4")
+	// the modes that KEEP unknown placeholders resume the scan behind the opener, inside the text the
+	// search for the closing brace just walked over: nested openers must not search again (lastEnd).
+	// Sizes are those at which the code without the remembered brace is clearly quadratic but finishes.
+	for _, mode := range []string{"known", "orkeep"} {
+		emit("cost " + mode + " 20000 4")
+		emit("costf " + mode + " 20000 4 " + core.Hex("{a") + " " + core.Hex("}"))
+		emit("costf " + mode + " 20000 4 " + core.Hex("{") + " " + core.Hex("\\}x}"))
+		emit("costf " + mode + " 2000 4 " + core.Hex("{\\}") + " " + core.Hex("}"))
+		emit("costf " + mode + " 2000 4 " + core.Hex("{a}{\\}") + " " + core.Hex("}"))
+	}
 	for c := 0; c < n/4; c++ {
 		genHTTP(rng.Fork(), emit)
 	}
@@ -340,11 +353,15 @@ func (prop) Run(line string) core.Outcome {
 	return o
 }
 
-// cost <mode> <n> <mult>: time the witness family "{"^n + "}" at n and mult*n.
+// cost <mode> <n> <mult>: time the family "{"^n + "}" (costf: unit^n + tail) at n and mult*n.
 func runCost(line string, f []string, unit, tail string) core.Outcome {
 	n, _ := strconv.Atoi(f[2])
 	mult, _ := strconv.Atoi(f[3])
-	if n <= 0 || mult <= 1 || n*mult*len(unit) > 4000000 {
+	okMode := false
+	for _, m := range costModes {
+		okMode = okMode || m == f[1]
+	}
+	if !okMode || n <= 0 || mult <= 1 || n*mult*len(unit) > 4000000 {
 		return core.Outcome{Impl: "bad-op"}
 	}
 	// one measurement = best of 3 runs; a run that does not finish within 2 s is abandoned (its
@@ -363,6 +380,8 @@ func runCost(line string, f []string, unit, tail string) core.Outcome {
 					call("all", inp, "", nil, nil)
 				case "orerr":
 					call("orerr", inp, "01", nil, nil)
+				case "orkeep":
+					call("orerr", inp, "00", nil, nil)
 				}
 				done <- time.Since(t0)
 			}()
